@@ -1,7 +1,7 @@
 """C07 — parallel multiway merge equals the sequential merge for every thread count, both splittings."""
 import random
 
-from vlib import flow
+from vlib import core, flow
 
 def csv(run):
     return ",".join(str(x) for x in run) if run else "-"
@@ -139,10 +139,45 @@ class C07(flow.Spec):
             return (keys, t[3], t[7])
         return strip(impl) is not None and strip(impl) == strip(model)
 
+    tsan_stats = None
+
+    def _tsan(self, ctx, seed):
+        """supporting evidence only: the same harness built with ThreadSanitizer, real threads, parallel path"""
+        hb, log = core.build_harness(ctx, name="c07t", sources=["c07.cpp"],
+                                     repo_sources=["tlx/algorithm/parallel_multiway_merge.cpp"],
+                                     std_flags=["-std=gnu++17", "-O1", "-g", "-fsanitize=thread"])
+        if hb is None:
+            ctx.say("TSan harness does not compile: " + log[-300:])
+            self.tsan_stats = dict(tsan="build failed")
+            return
+        rng = random.Random(seed * 31 + 7)
+        lines = []
+        for i in range(400):
+            t = gen_op(rng, "quick").split()
+            t[7] = "par"
+            lines.append(f"case t{i}")
+            lines.append(" ".join(t))
+        out, rc, err = core.run_lines([hb, "run"], lines, timeout=1500,
+                                      env={"TSAN_OPTIONS": "halt_on_error=1:exitcode=66:report_signal_unsafe=0"})
+        races = err.count("WARNING: ThreadSanitizer")
+        self.tsan_stats = dict(tsan_cases=400, tsan_rc=rc, tsan_reports=races)
+        ctx.say(f"TSan run: rc={rc} reports={races}")
+        if rc != 0 or races:
+            k = max(0, len([l for l in out if not l.startswith("#VIOL")]) // 2 - 1)
+            case = lines[2 * k: 2 * k + 2] if 2 * k + 1 < len(lines) else lines[-2:]
+            p = ctx.write_replay(f"viol_tsan_{seed}.ops", ["kind: ThreadSanitizer report on real threads",
+                                                           "message: " + err[:1500].replace("\n", " | ")], case)
+            ctx.violation(p, "data race reported by ThreadSanitizer: " + err[:300].replace("\n", " | "), True)
+
+    def extra_coverage(self, ctx, res):
+        return dict(self.tsan_stats or {})
+
     def cases(self, ctx, seed, tier, round_no=0):
         rng = random.Random(seed * 1000003 + round_no * 7919 + 7)
         n = 5000 if tier == "quick" else 12000
         cs = []
+        if tier != "quick" and round_no == 0:
+            self._tsan(ctx, seed)
         for i in range(n):
             lines = [f"case c{round_no}_{i}"]
             for _ in range(rng.choice([1, 2, 4])):
